@@ -509,7 +509,7 @@ fn main() {
     }
 
     // Structured random matrices within brute-force range, every width 1..12.
-    let n_small = if args.thorough { 12000 } else { 700 };
+    let n_small = if args.thorough { 25000 } else { 2500 };
     for i in 0..n_small {
         let t = 1 + rng.usize_below(5);
         let l = 1 + rng.usize_below(4);
@@ -528,7 +528,7 @@ fn main() {
     }
 
     // Larger matrices (forward-recursion oracle only).
-    let n_large = if args.thorough { 3000 } else { 200 };
+    let n_large = if args.thorough { 5000 } else { 400 };
     for i in 0..n_large {
         let t = 6 + rng.usize_below(15);
         let l = 2 + rng.usize_below(7);
